@@ -44,6 +44,7 @@ type vfPairCfg struct {
 	HorizonS                int
 	StrAddr                 bool // use non-UDP address types (string comparison paths)
 	Wire                    bool // decode every datagram with the independent decoder (C09) and check sizes (C10)
+	Dup                     int  // SetDUP(n) on both sessions (duplicate datagrams; exercises the transmit queue's buffer ownership)
 	GapAfter                int  // the client writer idles GapMs after this many writes (0 = never)
 	GapMs                   int
 }
@@ -290,6 +291,9 @@ func (p *vfPair) tune(s *UDPSession) {
 	s.SetStreamMode(cfg.Stream)
 	s.SetWriteDelay(cfg.WriteDelay)
 	s.SetACKNoDelay(cfg.AckNoDelay)
+	if cfg.Dup > 0 {
+		s.SetDUP(cfg.Dup)
+	}
 }
 
 // writer writes the given sizes and returns the accepted bytes.
